@@ -827,9 +827,20 @@ impl<K: Kmer, D: Debug> DebruijnGraph<K, D> {
                 .iter()
                 .any(|&(prev_node, _)| prev_node == (next_node_id as u32));
 
-            let status = if cycle {
-                Status::Cycle
-            } else if next_node.edges(incoming_dir.flip()).is_empty() {
+            if cycle {
+                // the walk has reached a node that is already on the path: the path ends here.
+                // (the node is not appended a second time, so a returned path never repeats a node)
+                if !new_states.iter().any(|s: &State| s.status == Status::Cycle) {
+                    new_states.push(State {
+                        path: state.path.clone(),
+                        score: state.score,
+                        status: Status::Cycle,
+                    });
+                }
+                continue;
+            }
+
+            let status = if next_node.edges(incoming_dir.flip()).is_empty() {
                 Status::End
             } else {
                 Status::Active
